@@ -7,27 +7,32 @@ import logging
 from core import Case
 
 PROP = 'C16'
-COQ_TARGETS = ['theories/CovRun.vo']
+COQ_TARGETS = ['theories/CovQueue.vo']
 COQ_IMPORTS = 'From Bac Require Import Base Cov.'
 RULE = ('cases: seeded timelines of 6..28 events over a device with 6 objects (analogValue, analogInput, binaryValue, '
-        'multiStateValue, pulseConverter [covPeriod 0 or 3..20 s], calendar = no COV support; + an unknown object id) and 3 subscriber '
-        'stacks x 2 process ids: Subscribe(confirmed?, lifetime in {absent,0,1,2,5,30,60,120}) / Cancel / Write(presentValue | '
-        'statusFlags | covIncrement) / Drain / Advance(1/8 s ticks, incl. exactly onto, one tick before and after every expiry) / '
-        'ReadProperty(activeCovSubscriptions).  Analog writes are chosen around the boundary |v - last| = increment (exactly, one '
-        'quarter below/above), returns to the old value and bursts without a drain.  Observables per event: ack/error code, '
-        'exceptions, the sorted notifications received by the subscribers (client, process, object, confirmed?, time remaining, '
-        'value, flags) and the sorted active-subscription list.  non-trivial = the timeline produced >= 1 change notification or '
-        '>= 1 expiry/cancel of a live subscription; distinct by the event list.')
+        'multiStateValue, pulseConverter [covPeriod 0 or 1..20 s], calendar = no COV support; + an unknown object id) and 3 subscriber '
+        'stacks x 2 process ids, 15 % of the timelines with 1-2 subscribers that never acknowledge confirmed notifications. Events: '
+        'Subscribe / SubscribeCOVProperty(presentValue) (confirmed? in {yes,no,absent}, lifetime in {absent,0,1,2,5,30,60,120}) / Cancel / '
+        'Write(presentValue | statusFlags | covIncrement) / Drain / Advance(1/8 s ticks, incl. exactly onto, one tick before and after every '
+        'expiry) / ReadProperty(activeCovSubscriptions); half of the timelines are *stepped*: requests are delivered without running '
+        'the deferred COV functions (SubscribeNow / CancelNow / ReadNow) and StepQ runs exactly one deferred COV function of the real '
+        'core.deferredFns (network and IOCB plumbing always to quiescence), so that writes, subscribes, cancels and the _triggered '
+        'coalescing interleave arbitrarily.  Analog writes are aimed at |v - last| = increment (exactly, one quarter below/above), '
+        'returns to the old value and bursts.  Observables per event: ack/error code, exceptions, the sorted notifications issued '
+        '(client, process, object, confirmed?, time remaining, value, flags; the direct check also compares them with what the '
+        'subscriber stacks received) and the sorted active-subscription list.  non-trivial = the timeline produced >= 1 change '
+        'notification; distinct by (event list, silent subscribers).')
 TRUSTED = ['model coq/theories/Cov.v written by hand after service/cov.py (Subscription, COVDetection, COVIncrementCriteria, '
            'PulseConverterCriteria, ActiveCOVSubscriptions, ChangeOfValueServices.do_SubscribeCOVRequest / cancel_subscription), '
            'service/detect.py (DetectionMonitor.property_change, _execute) and object.py Property.WriteProperty monitors; tie = correspondence',
-           'harness/vnet.py virtual clock + vlan wiring (the deferred queue is drained to quiescence after every request; writes are '
-           'local `obj.prop = v` assignments between drains)',
+           'harness/vnet.py virtual clock + vlan wiring; the harness drives core.deferredFns itself: DetectionAlgorithm-bound deferred '
+           'functions one at a time on request, everything else (LAN delivery tasks, IOCB queue triggers) to quiescence after every event',
            'binary32/binary64 arithmetic of the increment test and of taskTime - now: sampled on binary-exact quarters / eighths only']
-ASSUMPTIONS = ['subscribers acknowledge every confirmed notification (no retransmissions)',
-               'present values and increments are multiples of 1/4, times multiples of 1/8 s (exact in binary floating point)',
-               'requests carrying a lifetime but no issueConfirmedNotifications are not generated',
-               'one device, one LAN, local station addresses']
+ASSUMPTIONS = ['present values and increments are multiples of 1/4, times multiples of 1/8 s (exact in binary floating point)',
+               'time advances only with an empty deferred queue (core.run never sleeps while deferred functions are pending)',
+               'silent subscribers stay silent for the whole timeline (4 transmissions 3 s apart, then abort); the model compares what '
+               'the COV service issues, the direct check what arrives',
+               'one device, one LAN, local station addresses; SubscribeCOVProperty only for presentValue, without covIncrement']
 
 TICKS = 8                 # model time unit: 1/8 s
 SCALE = 4                 # analog values: quarters
@@ -35,7 +40,9 @@ T0 = 1700000000.0
 
 # object kinds of the model (Cov.v)
 KINC, KGEN, KPULSE, KNOCOV = 0, 1, 2, 3
-OTYPE = {'analogInput': 0, 'analogValue': 2, 'binaryValue': 5, 'calendar': 6, 'multiStateValue': 19, 'pulseConverter': 24}
+OTYPE = {'analogInput': 0, 'analogValue': 2, 'binaryValue': 5, 'calendar': 6, 'multiStateValue': 19, 'pulseConverter': 24,
+         'loadControl': 28, 'accessDoor': 30}
+SHED = ['shedInactive', 'shedRequestPending', 'shedCompliant', 'shedNonCompliant']
 
 
 def oid_of(t, i):
@@ -50,7 +57,7 @@ ERRCODES = {'covSubscriptionFailed': 43, 'operationalProblem': 25, 'unknownObjec
 class Sim:
     """one device + subscriber stacks; every method returns the observation of that event"""
 
-    def __init__(self, cfg, nclients=3):
+    def __init__(self, cfg, nclients=3, silent=()):
         import core
         core.impl_import_guard()
         logging.disable(logging.CRITICAL)
@@ -66,7 +73,8 @@ class Sim:
         class Cli(Capability):
             def do_ConfirmedCOVNotificationRequest(self, apdu):
                 outer.notifs.append((self.cli_no, 1, apdu))
-                self.response(SimpleAckPDU(context=apdu))
+                if self.cli_no not in outer.silent:        # a silent subscriber never answers: retries, then abort
+                    self.response(SimpleAckPDU(context=apdu))
 
             def do_UnconfirmedCOVNotificationRequest(self, apdu):
                 outer.notifs.append((self.cli_no, 0, apdu))
@@ -77,7 +85,15 @@ class Sim:
         self.clock = VClock(T0)
         assert _task._task_manager is self.clock.tm and not self.clock.tm.tasks
         self.lan = self.clock.network()
-        self.dev = Stack(self.clock, self.lan, 1, services=[ChangeOfValueServices, ReadWritePropertyServices])
+        class Issued:
+            """records every COV notification at the moment the service hands it to the application (request_io)"""
+            def cov_notification(self, cov, request):
+                outer.issued.append(outer._canon_issue(request))
+                super().cov_notification(cov, request)
+
+        self.silent = set(silent)
+        self.issued = []
+        self.dev = Stack(self.clock, self.lan, 1, services=[Issued, ChangeOfValueServices, ReadWritePropertyServices])
         self.clients = {}
         for i in range(2, 2 + nclients):
             c = Stack(self.clock, self.lan, i, services=[Cli])
@@ -102,6 +118,13 @@ class Sim:
             elif t == 'pulseConverter':
                 o = O.PulseConverterObject(objectIdentifier=(t, inst), objectName='pc%d' % inst, presentValue=pv / SCALE,
                                            statusFlags=flags, covIncrement=inc / SCALE, covPeriod=period)
+            elif t == 'loadControl':
+                from bacpypes.basetypes import ShedLevel, DateTime
+                o = O.LoadControlObject(objectIdentifier=(t, inst), objectName='lc%d' % inst, presentValue=SHED[pv], statusFlags=flags,
+                                        requestedShedLevel=ShedLevel(percent=10), startTime=DateTime(date=(120, 1, 1, 3), time=(1, 2, 3, 4)),
+                                        shedDuration=5, dutyWindow=7)
+            elif t == 'accessDoor':
+                o = O.AccessDoorObject(objectIdentifier=(t, inst), objectName='ad%d' % inst, presentValue='lock', statusFlags=flags)
             elif t == 'calendar':
                 o = O.CalendarObject(objectIdentifier=(t, inst), objectName='cal%d' % inst, presentValue=False, dateList=[])
             else:
@@ -125,7 +148,10 @@ class Sim:
         oid = oid_of(t, inst)
         vals = {pv.propertyIdentifier: pv.value for pv in apdu.listOfValues}
         names = [pv.propertyIdentifier for pv in apdu.listOfValues]
-        if names != ['presentValue', 'statusFlags']:
+        expect = ['presentValue', 'statusFlags']
+        if t == 'loadControl':
+            expect = ['presentValue', 'statusFlags', 'requestedShedLevel', 'startTime', 'shedDuration', 'dutyWindow']
+        if names != expect:
             pvz, flz = -999, -999
         else:
             if t in ('analogValue', 'analogInput', 'pulseConverter'):
@@ -133,6 +159,10 @@ class Sim:
                 pvz = int(x) if x == int(x) else -998
             elif t == 'binaryValue':
                 pvz = {'inactive': 0, 'active': 1}.get(vals['presentValue'].cast_out(BinaryPV), -997)
+            elif t == 'loadControl':
+                from bacpypes.basetypes import ShedState
+                x = vals['presentValue'].cast_out(ShedState)
+                pvz = SHED.index(x) if x in SHED else -997
             else:
                 pvz = int(vals['presentValue'].cast_out(Unsigned))
             bits = list(vals['statusFlags'].cast_out(StatusFlags))
@@ -140,11 +170,76 @@ class Sim:
         dev_ok = tuple(apdu.initiatingDeviceIdentifier) == ('device', 1)
         return (cli, int(apdu.subscriberProcessIdentifier), oid, conf, int(apdu.timeRemaining), pvz, flz if dev_ok else -995)
 
+    def _canon_issue(self, request):
+        from bacpypes.apdu import ConfirmedCOVNotificationRequest
+        a = request.pduDestination
+        cli = a.addrAddr[0] if (a is not None and a.addrAddr and len(a.addrAddr) == 1 and not a.addrNet) else -1
+        return self._canon_notif(cli, 1 if isinstance(request, ConfirmedCOVNotificationRequest) else 0, request)
+
     def _finish(self, tag, ack=0, code=0, errors=(), active=None):
         ns = sorted(self._canon_notif(*n) for n in self.notifs)
         self.notifs = []
-        return {'ev': tag, 'ack': ack, 'code': code, 'nerr': len(errors), 'notifs': ns, 'active': active,
-                'errors': [repr(e)[:120] for e in errors]}
+        iss = sorted(self.issued)
+        self.issued = []
+        return {'ev': tag, 'ack': ack, 'code': code, 'nerr': len(errors), 'notifs': iss, 'received': ns, 'active': active,
+                'pending': len(self._cov_items()), 'errors': [repr(e)[:120] for e in errors]}
+
+    # -- the deferred queue, driven by hand: COV functions one at a time, all the plumbing (LAN delivery tasks,
+    #    IOCB queue triggers) to quiescence
+    def _is_cov(self, item):
+        from bacpypes.service.detect import DetectionAlgorithm
+        return isinstance(getattr(item[0], '__self__', None), DetectionAlgorithm)
+
+    def _cov_items(self):
+        return [x for x in self.clock.core.deferredFns if self._is_cov(x)]
+
+    def _plumbing(self):
+        bc, errors, n = self.clock.core, [], 0
+        while True:
+            progressed = False
+            rest = [x for x in bc.deferredFns if not self._is_cov(x)]
+            if rest:
+                bc.deferredFns = [x for x in bc.deferredFns if self._is_cov(x)]
+                for fn, a, k in rest:
+                    try:
+                        fn(*a, **k)
+                    except Exception as e:
+                        errors.append(e)
+                progressed = True
+            t, _ = self.clock.tm.get_next_task()
+            if t is not None:
+                try:
+                    self.clock.tm.process_task(t)
+                except Exception as e:
+                    errors.append(e)
+                progressed = True
+            n += 1
+            if not progressed:
+                return errors
+            if n > 100000:
+                raise RuntimeError('plumbing: step limit')
+
+    def _step_q(self):
+        bc, errors = self.clock.core, []
+        for i, x in enumerate(bc.deferredFns):
+            if self._is_cov(x):
+                del bc.deferredFns[i]
+                try:
+                    x[0](*x[1], **x[2])
+                except Exception as e:
+                    errors.append(e)
+                break
+        return errors + self._plumbing()
+
+    def _drain_q(self):
+        errors = self._plumbing()
+        n = 0
+        while self._cov_items():
+            errors += self._step_q()
+            n += 1
+            if n > 10000:
+                raise RuntimeError('drain: step limit')
+        return errors
 
     def _response(self, iocb):
         from bacpypes.apdu import SimpleAckPDU, ComplexAckPDU, Error, RejectPDU, AbortPDU
@@ -171,6 +266,8 @@ class Sim:
                     o.presentValue = ['inactive', 'active'][v]
                 elif t == 'multiStateValue':
                     o.presentValue = v
+                elif t == 'loadControl':
+                    o.presentValue = SHED[v]
                 else:
                     o.presentValue = bool(v)
             elif prop == 'fl':
@@ -182,37 +279,58 @@ class Sim:
         return self._finish('W')
 
     def drain(self):
-        return self._finish('D', errors=self.clock.drain())
+        return self._finish('D', errors=self._drain_q())
 
-    def subscribe(self, c, proc, oid, conf, life):
-        from bacpypes.apdu import SubscribeCOVRequest
+    def step_q(self):
+        return self._finish('Q', errors=self._step_q())
+
+    def _request(self, c, proc, oid, conf, life, variant):
+        from bacpypes.apdu import SubscribeCOVRequest, SubscribeCOVPropertyRequest
+        from bacpypes.basetypes import PropertyReference
         kw = {}
         if conf is not None:
             kw['issueConfirmedNotifications'] = bool(conf)
         if life is not None:
             kw['lifetime'] = life
-        io = self.clients[c].send(SubscribeCOVRequest(subscriberProcessIdentifier=proc,
-                                                      monitoredObjectIdentifier=self._objid(oid), **kw), self.dev.address)
-        errs = self.clock.drain()
-        ack, code = self._response(io)
-        return self._finish('S' if (conf is not None or life is not None) else 'X', ack, code, errs)
+        if variant == 'P':
+            req = SubscribeCOVPropertyRequest(subscriberProcessIdentifier=proc, monitoredObjectIdentifier=self._objid(oid),
+                                              monitoredPropertyIdentifier=PropertyReference(propertyIdentifier='presentValue'), **kw)
+        else:
+            req = SubscribeCOVRequest(subscriberProcessIdentifier=proc, monitoredObjectIdentifier=self._objid(oid), **kw)
+        io = self.clients[c].send(req, self.dev.address)
+        errs = self._plumbing()
+        return io, errs
 
-    def cancel(self, c, proc, oid):
-        return self.subscribe(c, proc, oid, None, None)
+    def subscribe(self, c, proc, oid, conf, life, variant=None, now=False):
+        errs = [] if now else self._drain_q()
+        io, e2 = self._request(c, proc, oid, conf, life, variant)
+        errs += e2
+        if not now:
+            errs += self._drain_q()
+        ack, code = self._response(io)
+        cancel = conf is None and life is None
+        tag = ('XN' if cancel else 'SN') if now else ('X' if cancel else 'S')
+        return self._finish(tag, ack, code, errs)
+
+    def cancel(self, c, proc, oid, now=False):
+        return self.subscribe(c, proc, oid, None, None, now=now)
 
     def advance(self, ticks):
-        errs = self.clock.advance(ticks / TICKS)
+        errs = self._drain_q()
+        errs += self.clock.advance(ticks / TICKS)
         self.ticks += ticks
         assert self.clock.now[0] == T0 + self.ticks / TICKS
+        assert not self._cov_items()
         return self._finish('A', errors=errs)
 
-    def read_active(self, c):
+    def read_active(self, c, now=False):
         from bacpypes.apdu import ReadPropertyRequest
         from bacpypes.basetypes import COVSubscription
         from bacpypes.constructeddata import ListOf
+        errs = [] if now else self._drain_q()
         io = self.clients[c].send(ReadPropertyRequest(objectIdentifier=('device', 1),
                                                      propertyIdentifier='activeCovSubscriptions'), self.dev.address)
-        errs = self.clock.drain()
+        errs += self._plumbing()
         ack, code = self._response(io)
         active = None
         if ack == 1:
@@ -231,7 +349,7 @@ class Sim:
                 active.append((cli, int(e.recipient.processIdentifier), oid_of(t, inst) if pid == 'presentValue' else -1,
                                int(bool(e.issueConfirmedNotifications)), int(e.timeRemaining), hasinc, incz))
             active.sort()
-        return self._finish('R', ack, code, errs, active)
+        return self._finish('RN' if now else 'R', ack, code, errs, active)
 
     def run_event(self, ev):
         k = ev[0]
@@ -239,10 +357,14 @@ class Sim:
             return self.write(ev[1], ev[2], ev[3])
         if k == 'D':
             return self.drain()
-        if k == 'S':
-            return self.subscribe(ev[1], ev[2], ev[3], ev[4], ev[5])
-        if k == 'X':
-            return self.cancel(ev[1], ev[2], ev[3])
+        if k in ('S', 'SN'):
+            return self.subscribe(ev[1], ev[2], ev[3], ev[4], ev[5], ev[6] if len(ev) > 6 else None, now=(k == 'SN'))
+        if k in ('X', 'XN'):
+            return self.cancel(ev[1], ev[2], ev[3], now=(k == 'XN'))
+        if k == 'Q':
+            return self.step_q()
+        if k == 'RN':
+            return self.read_active(ev[1], now=True)
         if k == 'A':
             return self.advance(ev[1])
         if k == 'R':
@@ -250,17 +372,24 @@ class Sim:
         raise ValueError(ev)
 
 
-def run_impl(cfg, events):
-    sim = Sim(cfg)
-    return [sim.run_event(e) for e in events]
+def run_impl(cfg, events, silent=()):
+    sim = Sim(cfg, silent=silent)
+    obs = [sim.run_event(e) for e in events]
+    if silent:
+        # let every retry run out (4 transmissions x 3 s per queued confirmed notification), then collect what arrived
+        sim.clock.advance(15.0 * (1 + sum(len(o['notifs']) for o in obs)))
+        obs.append({'ev': 'flush', 'received': sorted(sim._canon_notif(*n) for n in sim.notifs)})
+    return obs
 
 
-EVTAG = {'W': 1, 'D': 2, 'S': 3, 'X': 4, 'A': 5, 'R': 6}
+EVTAG = {'W': 1, 'D': 2, 'S': 3, 'X': 4, 'A': 5, 'R': 6, 'Q': 7, 'SN': 8, 'XN': 9, 'RN': 10}
 
 
 def canon_obs(obs):
     out = []
     for o in obs:
+        if o['ev'] == 'flush':
+            continue
         out += [EVTAG[o['ev']], o['ack'], o['code'], o['nerr'], len(o['notifs'])]
         for n in o['notifs']:
             out += list(n)
@@ -292,11 +421,15 @@ def coq_events(events):
             out.append('Write %d %s %s' % (e[1], {'pv': 'PPv', 'fl': 'PFl', 'inc': 'PInc'}[e[2]], z(e[3])))
         elif k == 'D':
             out.append('Drain')
-        elif k == 'S':
-            out.append('Subscribe %d %d %d %s %s' % (e[1], e[2], e[3], 'true' if e[4] else 'false',
-                                                     'None' if e[5] is None else '(Some %d)' % e[5]))
-        elif k == 'X':
-            out.append('Cancel %d %d %d' % (e[1], e[2], e[3]))
+        elif k in ('S', 'SN'):
+            out.append('%s %d %d %d %s %s' % ('Subscribe' if k == 'S' else 'SubscribeNow', e[1], e[2], e[3],
+                                              'true' if e[4] else 'false', 'None' if e[5] is None else '(Some %d)' % e[5]))
+        elif k in ('X', 'XN'):
+            out.append('%s %d %d %d' % ('Cancel' if k == 'X' else 'CancelNow', e[1], e[2], e[3]))
+        elif k == 'Q':
+            out.append('StepQ')
+        elif k == 'RN':
+            out.append('ReadNow %d' % e[1])
         elif k == 'A':
             out.append('Advance %d' % e[1])
         elif k == 'R':
@@ -319,10 +452,12 @@ def gen_cfg(rng, period=None):
         ('multiStateValue', 1, KGEN, rng.randrange(1, 6), 0, 0, 0),
         ('pulseConverter', 1, KPULSE, rng.choice([0, 8, 200]), 0, rng.choice(INCS), per),
         ('calendar', 1, KNOCOV, 0, 0, 0, 0),
+        ('loadControl', 1, KGEN, rng.randrange(4), 0, 0, 0),      # LoadControlCriteria: six reported properties
+        ('accessDoor', 1, KNOCOV, 0, 0, 0, 0),                    # supports COV on paper, no criteria class registered
     ]
 
 
-def gen_timeline(rng, cfg, nmin=6, nmax=28, focus_obj=None):
+def gen_timeline(rng, cfg, nmin=6, nmax=28, focus_obj=None, fine=False):
     """random timeline; the generator keeps a rough shadow (current values, values at the last drain, pending expiries)
     only to aim writes at the increment boundary and advances at the expiries"""
     n = rng.randrange(nmin, nmax + 1)
@@ -363,6 +498,8 @@ def gen_timeline(rng, cfg, nmin=6, nmax=28, focus_obj=None):
                             v = ref[oi]          # return to the reported value
                     elif t == 'binaryValue':
                         v = rng.randrange(2)
+                    elif t == 'loadControl':
+                        v = rng.randrange(4)
                     else:
                         v = rng.randrange(1, 6)
                     cur[oi][0] = v
@@ -379,6 +516,9 @@ def gen_timeline(rng, cfg, nmin=6, nmax=28, focus_obj=None):
                     elif rng.random() < 0.2:
                         events.append(('W', oi, 'inc', 4))     # no such property: refused
             continue
+        if fine and rng.random() < 0.18:
+            events.append(('Q',))
+            continue
         if r < 0.52:
             events.append(('D',))
             sync_refs()
@@ -389,14 +529,21 @@ def gen_timeline(rng, cfg, nmin=6, nmax=28, focus_obj=None):
             if q < 0.06:
                 oid = UNKNOWN_OID
             elif q < 0.1:
-                oid = oid_of(cfg[5][0], cfg[5][1])
+                nocov = rng.choice([c for c in cfg if c[2] == KNOCOV])
+                oid = oid_of(nocov[0], nocov[1])
             else:
                 oi = pick_obj()
                 oid = oid_of(cfg[oi][0], cfg[oi][1])
             if subs and rng.random() < 0.35:
                 c, proc, oid = rng.choice(subs)      # renewal
             life = rng.choice(LIFETIMES)
-            events.append(('S', c, proc, oid, rng.randrange(2), life))
+            conf = rng.choice([0, 1, 0, 1, 0, 1, None])          # None: a lifetime but no issueConfirmedNotifications
+            if conf is None and life is None:
+                life = rng.choice([0, 5, 30])
+            e = ('SN' if (fine and rng.random() < 0.6) else 'S', c, proc, oid, conf, life)
+            if rng.random() < 0.2:
+                e = e + ('P',)                                     # SubscribeCOVProperty(presentValue)
+            events.append(e)
             if (c, proc, oid) not in subs:
                 subs.append((c, proc, oid))
             if life:
@@ -409,7 +556,7 @@ def gen_timeline(rng, cfg, nmin=6, nmax=28, focus_obj=None):
                     subs.remove(k)
             else:
                 k = (rng.randrange(2, 5), rng.choice([1, 2]), rng.choice([UNKNOWN_OID] + [oid_of(c[0], c[1]) for c in cfg]))
-            events.append(('X',) + k)
+            events.append((('XN' if (fine and rng.random() < 0.6) else 'X'),) + k)
             sync_refs()
         elif r < 0.93:
             future = sorted(e for e in expiries if e > now)
@@ -427,19 +574,19 @@ def gen_timeline(rng, cfg, nmin=6, nmax=28, focus_obj=None):
             now += dt
             sync_refs()
         else:
-            events.append(('R', rng.randrange(2, 5)))
+            events.append(('RN' if (fine and rng.random() < 0.5) else 'R', rng.randrange(2, 5)))
             sync_refs()
     return events
 
 
-def mk_case(cfg, events, kind):
-    obs = run_impl(cfg, events)
+def mk_case(cfg, events, kind, silent=()):
+    obs = run_impl(cfg, events, silent)
     exp = canon_obs(obs)
-    changes = sum(len(o['notifs']) for o in obs if o['ev'] in ('D', 'A', 'R')) + \
+    changes = sum(len(o['notifs']) for o in obs if o['ev'] in ('D', 'A', 'R', 'Q')) + \
         sum(max(0, len(o['notifs']) - 1) for o in obs if o['ev'] in ('S', 'X'))
     coq = 'run_canon %s %s' % (coq_cfg(cfg), coq_events(events))
-    return Case(kind, coq, exp, key=(repr(cfg), repr(events)), nontrivial=changes >= 1,
-                desc={'cfg': [list(c) for c in cfg], 'events': [list(e) for e in events]})
+    return Case(kind, coq, exp, key=(repr(cfg), repr(events), repr(sorted(silent))), nontrivial=changes >= 1,
+                desc={'cfg': [list(c) for c in cfg], 'events': [list(e) for e in events], 'silent': sorted(silent)})
 
 
 # ----------------------------------------------------------------------------- correspondence cases
@@ -477,7 +624,40 @@ def fixed_timelines():
         out.append((cfg, [('S', 2, 1, pc, 0, life), ('S', 3, 1, pc, 1, 60), ('A', 8), ('A', 8), ('A', 8), ('A', 8), ('R', 2)]))
         out.append((cfg, [('S', 3, 1, pc, 1, 60), ('S', 2, 1, pc, 0, life), ('A', 40), ('R', 2)]))
         out.append((cfg, [('S', 3, 1, pc, 1, 60), ('A', 1), ('S', 2, 1, pc, 0, life), ('S', 2, 1, pc, 0, life), ('A', 40), ('R', 2)]))
+    # round 2: stepped deferred queue.  cancel overtaking the deferred initial notification (C16-F4), a stale _execute of a
+    # detection that was dropped and re-created, subscribe between trigger and execute, lifetime without a mode (C16-F5)
+    out.append((cfg, [('S', 2, 1, av, 0, 0), ('SN', 3, 1, av, 1, 0), ('XN', 3, 1, av), ('Q',), ('W', 0, 'pv', 40), ('D',)]))
+    out.append((cfg, [('S', 2, 1, av, 0, 0), ('W', 0, 'pv', 40), ('XN', 2, 1, av), ('SN', 2, 1, av, 1, 9), ('W', 0, 'pv', 90),
+                      ('Q',), ('W', 0, 'pv', 10), ('Q',), ('Q',), ('RN', 3), ('D',)]))
+    out.append((cfg, [('S', 2, 1, av, 0, 0), ('W', 0, 'pv', 40), ('SN', 3, 1, av, 1, 0), ('Q',), ('Q',), ('W', 0, 'pv', 100),
+                      ('W', 0, 'pv', 0), ('Q',), ('W', 0, 'pv', 50), ('D',)]))
+    out.append((cfg, [('S', 4, 1, av, None, 30), ('R', 2), ('S', 4, 1, av, 1, 30), ('SN', 4, 1, av, None, 0, 'P'), ('D',), ('R', 2)]))
+    # the per-object reference is reset by somebody else's initial notification (C16-F3): 2 ends three increments behind
+    out.append((cfg, [('S', 2, 1, av, 0, 0), ('W', 0, 'pv', 32), ('S', 3, 1, av, 0, 0), ('W', 0, 'pv', 64), ('S', 3, 1, av, 0, 0),
+                      ('W', 0, 'pv', 96), ('S', 3, 1, av, 0, 0), ('W', 0, 'pv', 120), ('D',)]))
     return out
+
+
+def gen_any(rng, nmin=6, nmax=28):
+    """(cfg, events, silent, kind): the mix of timeline families used by the correspondence and the direct check"""
+    r = rng.random()
+    fine = rng.random() < 0.5
+    silent = ()
+    if rng.random() < 0.15:
+        silent = tuple(sorted(rng.sample([2, 3, 4], rng.choice([1, 1, 2]))))
+    if r < 0.25:
+        cfg = gen_cfg(rng, period=rng.choice([1, 2, 3, 7]))
+        ev, kind = gen_timeline(rng, cfg, nmin, nmax, focus_obj=4, fine=fine), 'pulse'
+    elif r < 0.5:
+        cfg = gen_cfg(rng)
+        ev, kind = gen_timeline(rng, cfg, nmin, nmax, focus_obj=rng.choice([0, 1]), fine=fine), 'analog'
+    elif r < 0.65:
+        cfg = gen_cfg(rng)
+        ev, kind = gen_timeline(rng, cfg, nmin, nmax, focus_obj=rng.choice([2, 3, 6]), fine=fine), 'generic'
+    else:
+        cfg = gen_cfg(rng)
+        ev, kind = gen_timeline(rng, cfg, nmin, nmax, fine=fine), 'mixed'
+    return cfg, ev, silent, kind + ('-stepped' if fine else '') + ('-silent' if silent else '')
 
 
 def cases(rng, tier):
@@ -486,43 +666,52 @@ def cases(rng, tier):
         out.append(mk_case(cfg, events, 'fixed'))
     n = 6000 if tier == 'thorough' else 2000
     for k in range(n):
-        r = rng.random()
-        if r < 0.25:
-            cfg = gen_cfg(rng, period=rng.choice([1, 2, 3, 7]))
-            out.append(mk_case(cfg, gen_timeline(rng, cfg, focus_obj=4), 'pulse'))
-        elif r < 0.5:
-            cfg = gen_cfg(rng)
-            out.append(mk_case(cfg, gen_timeline(rng, cfg, focus_obj=rng.choice([0, 1])), 'analog'))
-        elif r < 0.65:
-            cfg = gen_cfg(rng)
-            out.append(mk_case(cfg, gen_timeline(rng, cfg, focus_obj=rng.choice([2, 3])), 'generic'))
-        else:
-            cfg = gen_cfg(rng)
-            out.append(mk_case(cfg, gen_timeline(rng, cfg), 'mixed'))
+        cfg, ev, silent, kind = gen_any(rng)
+        out.append(mk_case(cfg, ev, kind, silent))
     return out
 
 
 # ----------------------------------------------------------------------------- direct predicate
 class Oracle:
     """Implementation-independent bookkeeping of who is subscribed and what changed, and the weakest reading of C16
-    evaluated on the observations of one timeline.  Where the statement leaves a choice the predicate accepts every choice:
-      * the reference of the increment test may be the value last reported to this subscriber or to any subscriber of the object;
-      * writes within one round (no drain in between) may count as one change, as their net effect, or one by one;
-      * a change pending when the subscriber cancels / renews / expires in the same round may or may not be reported;
+    evaluated on the observations of one timeline.  Safety is judged per event (at the instant a notification is issued),
+    completeness per *window* = the span between two instants at which no deferred COV function is pending.
+    Where the statement leaves a choice the predicate accepts every choice:
+      * the reference of the increment test may be the value last reported to this subscriber, to any subscriber of the
+        object, or any value reported during the window;
+      * writes within one window may count as one change, as their net effect, or one by one;
+      * a change pending when the subscriber subscribes / cancels / renews / expires in the same window may or may not be reported;
       * a subscription whose lifetime ends exactly now may or may not still be served;
       * status-flag and increment writes on analog objects may or may not be reported; pulse converters with a covPeriod may
         additionally report once per period boundary;
-      * time remaining may be rounded either way (0 only for an indefinite subscription or less than a second left)."""
+      * time remaining may be rounded either way (0 only for an indefinite subscription or less than a second left).
+    One check takes the subscriber's side only: at a quiescent instant no live subscriber may be left with a value that
+    differs from the present value by two increments or more (every reading except "last value sent to anybody" bounds the
+    difference by less than two increments)."""
 
-    def __init__(self, cfg):
+    def __init__(self, cfg, silent=()):
         self.cfg = cfg
+        self.silent = set(silent)
         self.vals = {i: [c[3], c[4], c[5]] for i, c in enumerate(cfg)}
         self.oi = {oid_of(c[0], c[1]): i for i, c in enumerate(cfg)}
         self.live = {}
         self.last_any = {}
         self.now = 0
-        self.pending = {}
         self.history = {}          # key -> 'cancelled' | 'expired'
+        self.seq = 0
+        self.new_window()
+
+    def new_window(self):
+        self.w_start_vals = {i: list(v) for i, v in self.vals.items()}
+        self.w_start_live = {k: dict(v) for k, v in self.live.items() if self.status(k)}
+        self.w_start_any = dict(self.last_any)
+        self.w_writes = {}
+        self.w_counts = {}
+        self.w_subs = {}            # key -> acknowledged subscribes in the window
+        self.w_gone = set()         # cancelled / expired / maybe-expired in the window
+        self.w_reported = {}        # oid -> values reported in the window
+        self.w_periods = {}         # oid -> period boundaries crossed
+        self.w_t0 = self.now
 
     def status(self, k, t=None):
         """'live', 'maybe' (lifetime ends exactly now) or None"""
@@ -539,14 +728,18 @@ class Oracle:
         if o['ack'] != 0:
             return
         j = {'pv': 0, 'fl': 1, 'inc': 2}[prop]
-        self.pending.setdefault(oi, []).append((prop, self.vals[oi][j], v))
+        self.w_writes.setdefault(oi, []).append((prop, self.vals[oi][j], v))
         self.vals[oi][j] = v
+        if prop == 'inc':
+            for k, sub in self.live.items():
+                if self.oi[k[2]] == oi:
+                    sub['inc_written'] = True
 
-    def change_info(self, oi, start):
-        """(must, may, maxn) as functions of the subscriber's own last reported value"""
+    def change_info(self, oi):
         kind = self.cfg[oi][2]
-        ws = self.pending.get(oi, [])
-        pv0, fl0, inc0 = start
+        oid = oid_of(self.cfg[oi][0], self.cfg[oi][1])
+        ws = self.w_writes.get(oi, [])
+        pv0, fl0, inc0 = self.w_start_vals[oi]
         pvf, flf, incf = self.vals[oi]
         changed = [w for w in ws if w[1] != w[2]]
         if kind == KGEN:
@@ -557,10 +750,10 @@ class Oracle:
         fl_changed = any(w[0] == 'fl' and w[1] != w[2] for w in ws)
         pvw = [w[2] for w in ws if w[0] == 'pv']
         seq = [pv0] + pvw
-        any_ref = self.last_any.get(oid_of(self.cfg[oi][0], self.cfg[oi][1]))
+        common = [r for r in [self.w_start_any.get(oid)] + self.w_reported.get(oid, []) if r is not None]
 
         def refs(last_to):
-            return [r for r in (any_ref, last_to) if r is not None]
+            return common + ([last_to] if last_to is not None else [])
 
         def must(last_to):
             rs = refs(last_to)
@@ -577,10 +770,11 @@ class Oracle:
             return False
         return must, may, max(1, len(pvw) + sum(1 for w in changed if w[0] != 'pv'))
 
-    def check(self, ev, o, start_vals):
-        """ev is a draining event, o its observation; returns failures"""
+    def check(self, ev, o):
+        """ev is any event but a write, o its observation; returns failures"""
         fails = []
         k = ev[0]
+        self.seq += 1
 
         def fail(kind, **kw):
             d = {'kind': kind, 'event': list(ev), 'at_ticks': self.now}
@@ -591,23 +785,25 @@ class Oracle:
             fail('exception-in-stack', errors=o['errors'][:3])
         t_lo = self.now
         t_hi = self.now + (ev[1] if k == 'A' else 0)
-        ekey = tuple(ev[1:4]) if k in ('S', 'X') else None
+        is_sub = k in ('S', 'SN')
+        is_can = k in ('X', 'XN')
+        ekey = tuple(ev[1:4]) if (is_sub or is_can) else None
         known = ekey is not None and ekey[2] in self.oi and self.cfg[self.oi[ekey[2]]][2] != KNOCOV
-        if k in ('S', 'X') and known and o['ack'] != 1:
+        if (is_sub or is_can) and known and o['ack'] != 1:
             fail('request-not-acknowledged', ack=o['ack'], code=o['code'])
         new_sub = None
-        if k == 'S' and known and o['ack'] == 1:
+        if is_sub and known and o['ack'] == 1:
             life = ev[5] or 0
-            new_sub = {'conf': ev[4], 'life': life, 'expiry': (self.now + life * TICKS) if life else None, 'last_to': None}
+            new_sub = {'conf': 1 if ev[4] else 0, 'keep_mode': ev[4] is None and ekey in self.live, 'life': life, 'expiry': (self.now + life * TICKS) if life else None,
+                       'last_to': self.live.get(ekey, {}).get('last_to'), 'inc_written': False, 'others': 0}
         before = {key: self.status(key) for key in self.live if self.status(key)}
         allowed = dict(before)
         if new_sub is not None:
             allowed[ekey] = 'live'
-        # per notification
-        counts = {}
+        # ---- safety, per notification issued in this event
         for n in o['notifs']:
             key = n[:3]
-            counts[key] = counts.get(key, 0) + 1
+            self.w_counts[key] = self.w_counts.get(key, 0) + 1
             if key not in allowed:
                 fail('notified-while-not-subscribed', notification=list(n), previously=self.history.get(key, 'never subscribed'))
                 continue
@@ -616,7 +812,7 @@ class Oracle:
                 versions.append(self.live[key])
             if key == ekey and new_sub is not None:
                 versions.append(new_sub)
-            if n[3] not in [v['conf'] for v in versions]:
+            if n[3] not in [v['conf'] for v in versions] and not any(v.get('keep_mode') for v in versions):
                 fail('wrong-notification-mode', notification=list(n), requested=[v['conf'] for v in versions])
             ok_t = False
             for v in versions:
@@ -632,59 +828,52 @@ class Oracle:
             oi = self.oi[key[2]]
             if (n[5], n[6]) != (self.vals[oi][0], self.vals[oi][1]):
                 fail('stale-or-wrong-values', notification=list(n), current=self.vals[oi][:2])
-        # per subscriber
-        info = {}
-        for key, st in allowed.items():
-            oi = self.oi[key[2]]
-            if oi not in info:
-                info[oi] = self.change_info(oi, start_vals[oi])
-            must, may, maxn = info[oi]
-            c = counts.get(key, 0)
-            lo = hi = 0
-            if key in before:
-                last_to = self.live[key]['last_to']
-                hi = maxn if may(last_to) else 0
-                lo = 1 if must(last_to) else 0
-                exp = self.live[key]['expiry']
-                if st == 'maybe' or (key == ekey and k == 'X') or (exp is not None and exp <= t_hi):
-                    lo = 0
-                per = self.cfg[oi][6]
-                if k == 'A' and self.cfg[oi][2] == KPULSE and per:
-                    p8 = per * TICKS
-                    hi += (T0_TICKS + t_hi) // p8 - (T0_TICKS + t_lo) // p8
-            if key == ekey and new_sub is not None:
-                lo = max(lo, 1)
-                hi += 1
-            if c < lo:
-                fail('initial-notification-missing' if (key == ekey and new_sub is not None) else 'change-not-notified',
-                     subscriber=list(key), got=c, at_least=lo, writes=[list(w) for w in self.pending.get(oi, [])],
-                     last_reported_to_subscriber=self.live.get(key, {}).get('last_to'),
-                     last_reported_any=self.last_any.get(key[2]), increment=self.vals[oi][2])
-            if c > hi:
-                fail('notification-without-qualifying-change' if hi == 0 else 'too-many-notifications',
-                     subscriber=list(key), got=c, at_most=hi, writes=[list(w) for w in self.pending.get(oi, [])],
-                     last_reported_to_subscriber=self.live.get(key, {}).get('last_to'),
-                     last_reported_any=self.last_any.get(key[2]), increment=self.vals[oi][2])
-        # update
+        # ---- what was received against what was issued
+        if 'received' in o:
+            rec_ack = [n for n in o['received'] if n[0] not in self.silent]
+            iss_ack = [n for n in o['notifs'] if n[0] not in self.silent]
+            if sorted(rec_ack) != sorted(iss_ack):
+                fail('received-differs-from-issued', issued=[list(n) for n in iss_ack], received=[list(n) for n in rec_ack])
+        # ---- bookkeeping
         for n in o['notifs']:
             key = n[:3]
-            self.last_any[key[2]] = self.vals[self.oi[key[2]]][0]
+            val = self.vals[self.oi[key[2]]][0]
+            self.last_any[key[2]] = val
+            self.w_reported.setdefault(key[2], []).append(val)
             if key in self.live:
-                self.live[key]['last_to'] = self.vals[self.oi[key[2]]][0]
+                self.live[key]['last_to'] = val
+                self.live[key]['inc_written'] = False
+                self.live[key]['others'] = 0
         if new_sub is not None:
-            if counts.get(ekey):
+            if any(n[:3] == ekey for n in o['notifs']):
                 new_sub['last_to'] = self.vals[self.oi[ekey[2]]][0]
+            for key2, sub2 in self.live.items():
+                if key2 != ekey and key2[2] == ekey[2]:
+                    sub2['others'] = sub2.get('others', 0) + 1
             self.live[ekey] = new_sub
             self.history.pop(ekey, None)
-        if k == 'X' and known and o['ack'] == 1 and ekey in self.live:
+            self.w_subs[ekey] = self.w_subs.get(ekey, 0) + 1
+        if is_can and known and o['ack'] == 1 and ekey in self.live:
             del self.live[ekey]
             self.history[ekey] = 'cancelled'
+            self.w_gone.add(ekey)
         if k == 'A':
+            for oi, c in enumerate(self.cfg):
+                if c[2] == KPULSE and c[6]:
+                    p8 = c[6] * TICKS
+                    oid = oid_of(c[0], c[1])
+                    self.w_periods[oid] = self.w_periods.get(oid, 0) + (T0_TICKS + t_hi) // p8 - (T0_TICKS + t_lo) // p8
             self.now += ev[1]
-        for key in [key for key in self.live if self.status(key) is None]:
-            del self.live[key]
-            self.history[key] = 'expired'
-        if k == 'R':
+        for key in list(self.live):
+            st = self.status(key)
+            if st is None:
+                del self.live[key]
+                self.history[key] = 'expired'
+                self.w_gone.add(key)
+            elif st == 'maybe':
+                self.w_gone.add(key)
+        # ---- the active list
+        if k in ('R', 'RN'):
             if o['active'] is None:
                 fail('active-list-unreadable', ack=o['ack'], code=o['code'])
             else:
@@ -697,7 +886,7 @@ class Oracle:
                         fail('active-list-shows-dead-subscription', entry=list(a), previously=self.history.get(key, 'never subscribed'))
                         continue
                     v = self.live[key]
-                    if a[3] != v['conf']:
+                    if a[3] != v['conf'] and not v.get('keep_mode'):
                         fail('active-list-wrong-mode', entry=list(a), requested=v['conf'])
                     if v['expiry'] is None:
                         okt = a[4] == 0
@@ -711,37 +900,95 @@ class Oracle:
                 for key in self.live:
                     if self.status(key) == 'live' and key not in seen:
                         fail('active-list-misses-live-subscription', subscriber=list(key), listed=[list(a) for a in o['active']])
-        self.pending = {}
+        # ---- completeness, at quiescence
+        if o.get('pending', 0) == 0:
+            fails += [dict(f, event=list(ev), at_ticks=self.now) for f in self.close_window()]
+        return fails
+
+    def close_window(self):
+        fails = []
+        info = {}
+        keys = set(self.w_start_live) | set(self.w_subs) | set(self.w_counts)
+        for key in sorted(keys):
+            if key[2] not in self.oi:
+                continue
+            oi = self.oi[key[2]]
+            if oi not in info:
+                info[oi] = self.change_info(oi)
+            must, may, maxn = info[oi]
+            c = self.w_counts.get(key, 0)
+            nsub = self.w_subs.get(key, 0)
+            lo = hi = 0
+            if key in self.w_start_live:
+                last_to = self.w_start_live[key]['last_to']
+                hi = maxn if may(last_to) else 0
+                lo = 1 if must(last_to) else 0
+                if key in self.w_gone or nsub or self.w_start_live[key]['expiry'] is not None and self.w_start_live[key]['expiry'] <= self.now:
+                    lo = 0
+                hi += self.w_periods.get(key[2], 0)
+            elif nsub:
+                hi = maxn if may(None) else 0
+                hi += self.w_periods.get(key[2], 0)
+            if nsub:
+                hi += nsub
+                if self.status(key) == 'live' and key not in self.w_gone:
+                    lo = max(lo, 1)
+            detail = dict(subscriber=list(key), got=c, writes=[list(w) for w in self.w_writes.get(oi, [])],
+                          last_reported_to_subscriber=self.w_start_live.get(key, {}).get('last_to'),
+                          last_reported_any=self.w_start_any.get(key[2]), increment=self.vals[oi][2])
+            if c < lo:
+                fails.append(dict(detail, kind='initial-notification-missing' if (nsub and not c) else 'change-not-notified', at_least=lo))
+            if c > hi:
+                fails.append(dict(detail, kind='notification-without-qualifying-change' if hi == 0 else 'too-many-notifications', at_most=hi))
+        # the subscriber's side: nobody is left two increments behind
+        for key, sub in self.live.items():
+            oi = self.oi[key[2]]
+            inc = self.vals[oi][2]
+            if self.cfg[oi][2] in (KINC, KPULSE) and inc > 0 and self.status(key) == 'live' and sub['last_to'] is not None \
+                    and not sub.get('inc_written') and abs(self.vals[oi][0] - sub['last_to']) >= 2 * inc:
+                fails.append({'kind': 'subscriber-stale-by-two-increments', 'subscriber': list(key), 'told': sub['last_to'],
+                              'present_value': self.vals[oi][0], 'increment': inc,
+                              'other_subscribes_since_told': sub.get('others', 0)})
+        self.new_window()
         return fails
 
 
 T0_TICKS = int(T0) * TICKS
 
 
-def judge(cfg, events, obs=None):
-    """evaluate the C16 predicate on one timeline; returns (failures, stats)"""
+def judge(cfg, events, obs=None, silent=()):
+    """evaluate the C16 predicate on one timeline; returns (failures, number of notifications)"""
     if obs is None:
-        obs = run_impl(cfg, events)
-    orc = Oracle(cfg)
+        obs = run_impl(cfg, events, silent)
+    orc = Oracle(cfg, silent)
     fails = []
-    start = {i: list(v) for i, v in orc.vals.items()}
     nchange = 0
+    issued_silent, got = [], []
     for ev, o in zip(events, obs):
+        got += o.get('received', [])
         if ev[0] == 'W':
             orc.note_write(ev, o)
             if o['notifs'] or o['nerr']:
                 fails.append({'kind': 'notification-before-drain', 'event': list(ev)})
             continue
-        fails += orc.check(ev, o, start)
+        fails += orc.check(ev, o)
         nchange += len(o['notifs'])
-        start = {i: list(v) for i, v in orc.vals.items()}
+        issued_silent += [n for n in o['notifs'] if n[0] in orc.silent and n[3] == 1]
+    if silent and obs and obs[-1]['ev'] == 'flush':
+        # a subscriber that never acknowledges still gets every confirmed notification (retransmitted until the abort)
+        got += obs[-1]['received']
+        for n in issued_silent:
+            if n not in got:
+                fails.append({'kind': 'notification-to-silent-subscriber-lost', 'notification': list(n)})
     for f in fails:
         f['cfg'] = [list(c) for c in cfg]
         f['events'] = [list(e) for e in events]
+        if silent:
+            f['silent'] = sorted(silent)
     return fails, nchange
 
 
-def shrink(cfg, events, kind, budget=150):
+def shrink(cfg, events, kind, budget=150, silent=()):
     """greedy removal of events while a failure of the same kind remains"""
     cur = list(events)
     i = 0
@@ -749,7 +996,7 @@ def shrink(cfg, events, kind, budget=150):
         cand = cur[:i] + cur[i + 1:]
         budget -= 1
         try:
-            fs, _ = judge(cfg, cand)
+            fs, _ = judge(cfg, cand, silent=silent)
         except Exception:
             fs = []
         if any(f['kind'] == kind for f in fs):
@@ -764,10 +1011,10 @@ def direct(rng, tier, focus=()):
     samples = []
     hist = {}
 
-    def one(cfg, events, tag):
+    def one(cfg, events, tag, silent=()):
         nonlocal n, nontriv
         n += 1
-        fs, nchange = judge(cfg, events)
+        fs, nchange = judge(cfg, events, silent=silent)
         if nchange:
             nontriv += 1
         hist[tag] = hist.get(tag, 0) + 1
@@ -780,8 +1027,8 @@ def direct(rng, tier, focus=()):
                 if len(failures) >= 60:
                     break
                 if sum(1 for f in failures if f['kind'] == kd) < 2:       # minimise the first two of each kind only
-                    small = shrink(cfg, events, kd)
-                    f2 = [f for f in judge(cfg, small)[0] if f['kind'] == kd]
+                    small = shrink(cfg, events, kd, silent=silent)
+                    f2 = [f for f in judge(cfg, small, silent=silent)[0] if f['kind'] == kd]
                     failures.append(f2[0] if f2 else [f for f in fs if f['kind'] == kd][0])
                 else:
                     failures.append([f for f in fs if f['kind'] == kd][0])
@@ -794,29 +1041,22 @@ def direct(rng, tier, focus=()):
         if isinstance(d, dict) and 'events' in d:
             cfg = [tuple(c) for c in d['cfg']]
             evs = [tuple(e) for e in d['events']]
-            one(cfg, evs, 'focus')
+            sil = tuple(d.get('silent', ()))
+            one(cfg, evs, 'focus', sil)
             for _ in range(10):
                 cut = [e for e in evs if rng.random() < 0.8]
-                one(cfg, cut, 'focus')
+                one(cfg, cut, 'focus', sil)
     total = 24000 if tier == 'thorough' else 4000
     for k in range(total):
-        r = rng.random()
-        if r < 0.25:
-            cfg = gen_cfg(rng, period=rng.choice([1, 2, 3, 7]))
-            one(cfg, gen_timeline(rng, cfg, focus_obj=4), 'pulse')
-        elif r < 0.55:
-            cfg = gen_cfg(rng)
-            one(cfg, gen_timeline(rng, cfg, focus_obj=rng.choice([0, 1])), 'analog')
-        elif r < 0.7:
-            cfg = gen_cfg(rng)
-            one(cfg, gen_timeline(rng, cfg, focus_obj=rng.choice([2, 3])), 'generic')
-        else:
-            cfg = gen_cfg(rng)
-            one(cfg, gen_timeline(rng, cfg, nmin=15, nmax=40), 'mixed')
+        cfg, ev, silent, kind = gen_any(rng, nmin=8, nmax=34)
+        one(cfg, ev, kind, silent)
     return failures, {'evaluations': n, 'distinct_nontrivial': nontriv, 'exhaustive': False, 'timelines': hist, 'samples': samples}
 
 
 def classify(failure):
+    # C16-F3: the per-object reference of the increment test was moved by somebody else's initial notification
+    if failure.get('kind') == 'subscriber-stale-by-two-increments' and failure.get('other_subscribes_since_told', 0) >= 1:
+        return 'C16-F3'
     return None
 
 
@@ -832,11 +1072,12 @@ def replay(payload):
         return
     cfg = [tuple(c) for c in f['cfg']]
     events = [tuple(e) for e in f['events']]
-    obs = run_impl(cfg, events)
-    print('configuration:', cfg)
+    silent = tuple(f.get('silent', ()))
+    obs = run_impl(cfg, events, silent)
+    print('configuration:', cfg, 'silent subscribers:', silent)
     for e, o in zip(events, obs):
-        print(' ', e, '-> ack', o['ack'], o['code'], 'notifications', o['notifs'], 'active', o['active'], o['errors'] or '')
-    fs, _ = judge(cfg, events, obs)
+        print(' ', e, '-> ack', o['ack'], o['code'], 'issued', o['notifs'], 'received', o['received'], 'pending', o['pending'], 'active', o['active'], o['errors'] or '')
+    fs, _ = judge(cfg, events, obs, silent)
     for x in fs:
         print('PREDICATE FAILS:', json.dumps({k: v for k, v in x.items() if k not in ('cfg', 'events')}))
     got, err = core.coq_eval(COQ_IMPORTS, 'run_canon %s %s' % (coq_cfg(cfg), coq_events(events)))
